@@ -27,7 +27,8 @@ import threading
 from harness import core, fsbox, sched, tlc
 from checks import loader_common as lc
 
-SCENARIOS = ['main_edit_dir_override', 'dir_edit', 'defaults_permissive', 'deprecated', 'alias_eval']
+SCENARIOS = ['main_edit_dir_override', 'dir_edit', 'defaults_permissive', 'deprecated', 'alias_eval', 'dir_edit_linked', 'merge_mode_dir_edit']
+MERGE_MODE = {'merge_mode_dir_edit'}
 NAMES = ['n', 'm', 'o', 'u', 'default']
 ROLES = ['a', 'b', 'd1r', 'd2r', 'dflt', 'old', 'nobody']
 
@@ -44,6 +45,7 @@ CONSTANTS
  Defaults <- MTDefaults
  AllRoles <- MTRoles
  NameOrder <- MTOrder
+ OverwriteMode = %s
 INVARIANT AtomicDecision
 INVARIANT SettledCorrect
 CHECK_DEADLOCK FALSE
@@ -56,6 +58,7 @@ def R(*rs):
 
 
 ALIAS_M = {'k': 'alias', 'n': 'm'}
+ALIAS_O = {'k': 'alias', 'n': 'o'}
 ANY = {'k': 'any'}
 
 
@@ -71,6 +74,10 @@ def scenario_files(sc):
         return {'main': {'default': ANY, 'm': R('a')}}, {'main': {'default': ANY, 'm': R('b')}}
     if sc == 'deprecated':
         return {'main': {'o': R('a')}}, {'main': {'o': R('b')}}
+    if sc == 'dir_edit_linked':
+        return {'main': {'u': R('a')}, 'd1/a': {'n': ALIAS_M, 'm': R('a')}}, {'d1/a': {'m': R('b'), 'n': ALIAS_O, 'o': R('a')}}
+    if sc == 'merge_mode_dir_edit':
+        return {'main': {'n': R('a'), 'm': R('a')}, 'd1/a': {'n': R('d1r')}}, {'d1/a': {'n': R('d2r')}}
     return {'main': {'n': ALIAS_M, 'm': R('a')}}, {'main': {'n': R('b'), 'm': R('d2r')}}
 
 
@@ -98,7 +105,7 @@ class Env:
         self.old, self.edit = scenario_files(sc)
         for f, c in self.old.items():
             self._write(f, c)
-        self.e = lc.new_enforcer(self.box, 'plain', True, defaults=defaults_for(sc))
+        self.e = lc.new_enforcer(self.box, 'plain', True, defaults=defaults_for(sc), overwrite=sc not in MERGE_MODE)
         self.e.load_rules()
 
     def _write(self, f, c):
@@ -289,7 +296,7 @@ def judge(sc, cases, invariant):
     try:
         with os.fdopen(fd, 'w') as f:
             json.dump(stripped, f)
-        res = tlc.run('Conf_LoaderMT', CONF_CFG % (sc, 'FALSE', invariant), env={'VERIF_CASES': path}, cont=True, timeout=3000)
+        res = tlc.run('Conf_LoaderMT', CONF_CFG % (sc, 'FALSE', 'FALSE' if sc in MERGE_MODE else 'TRUE', invariant), env={'VERIF_CASES': path}, cont=True, timeout=3000)
     finally:
         os.unlink(path)
     bad = set()
@@ -306,10 +313,14 @@ def run(ctx):
     q = ctx.quick
     rng = ctx.rng
     design = {}
+    global SCENARIOS
+    if os.environ.get('VERIF_C20_ONLY'):          # development aid: restrict to some scenarios
+        SCENARIOS = [x for x in SCENARIOS if x in os.environ['VERIF_C20_ONLY'].split(',')]
     for sc in SCENARIOS:
-        res = tlc.run('MC_LoaderMT', MC_CFG % (sc, 'TRUE'), timeout=3000)
+        ow = 'FALSE' if sc in MERGE_MODE else 'TRUE'
+        res = tlc.run('MC_LoaderMT', MC_CFG % (sc, 'TRUE', ow), timeout=3000)
         ctx.add_mc('MC_LoaderMT(%s,Locked)' % sc, res)          # the repaired design must satisfy C20
-        res = tlc.run('MC_LoaderMT', MC_CFG % (sc, 'FALSE'), cont=True, timeout=3000)
+        res = tlc.run('MC_LoaderMT', MC_CFG % (sc, 'FALSE', ow), cont=True, timeout=3000)
         ctx.add_mc('MC_LoaderMT(%s,as-implemented)' % sc, res, must_hold=False)
         design[sc] = sorted({v['name'] for v in res.violations})
         ctx.note('design level, %s, code as implemented (no lock): TLC counterexamples for %s' % (sc, design[sc] or 'nothing'))
@@ -331,7 +342,9 @@ def run(ctx):
                 'dir_edit': [('n', 'a'), ('n', 'd1r'), ('n', 'd2r'), ('m', 'a')],
                 'defaults_permissive': [('n', 'nobody'), ('n', 'dflt'), ('u', 'nobody'), ('m', 'b')],
                 'deprecated': [('n', 'a'), ('n', 'b'), ('n', 'dflt')],
-                'alias_eval': [('n', 'a'), ('n', 'b'), ('n', 'd2r')]}[sc]
+                'alias_eval': [('n', 'a'), ('n', 'b'), ('n', 'd2r')],
+                'dir_edit_linked': [('n', 'a'), ('n', 'b'), ('m', 'a')],
+                'merge_mode_dir_edit': [('n', 'a'), ('n', 'd1r'), ('n', 'd2r')]}[sc]
         # park points: in the quick tier those line events of the reloading call at which the shared
         # store (contents, file-rule record, default rule) has just changed - every distinct window is
         # visited once - plus a regular sample; in the thorough tier every line event
